@@ -25,7 +25,10 @@ KEYS = ['x', 'y', 'z', 'x y', '']
 
 
 def num_column(draw, n):
-    kind = draw(st.sampled_from(['intstr', 'intstr', 'decstr', 'int', 'bigint', 'float', 'padstr']))
+    kind = draw(st.sampled_from(['intstr', 'intstr', 'decstr', 'int', 'bigint', 'float', 'padstr', 'bigintstr']))
+    if kind == 'bigintstr':
+        # integer strings beyond 2^53 (64-bit ids, nanosecond timestamps): integer data are aggregated exactly
+        return 'intstr', [str(draw(st.integers(2 ** 53, 2 ** 53 + 1000)) * draw(st.sampled_from([1, -1, 3, 189])) + draw(st.integers(0, 3))) for _ in range(n)]
     if kind == 'intstr':
         return kind, [str(draw(st.integers(-50, 50))) for _ in range(n)]
     if kind == 'padstr':
